@@ -6,6 +6,7 @@ sys.path.insert(0, os.path.join(os.path.dirname(HERE), 'contracts'))
 from emit import Unit, Sel
 from sym import SpecLib
 import c_vector
+import c_point
 
 
 def unit_C03(src, model='R'):
@@ -23,11 +24,28 @@ def unit_C03(src, model='R'):
     return u
 
 
+def unit_C12(src, model='R'):
+    u = Unit('C12', src, model)
+    lib = SpecLib()
+    F = c_vector.build(lib)
+    c_point.build(lib, F)
+    u.spec_texts.append(lib.text())
+    u.contract_fns += [c_point.contracts, c_vector.contracts]
+    c_vector.select_c03(u)
+    c_point.select_c12(u)
+    if model == 'R':
+        for L in c_point.laws(F):
+            pa, pb = L.render()
+            u.lemma_texts.append(pa)
+            u.poly_texts.append(pb)
+    return u
+
+
 def build_C03(src, tier):
     return [unit_C03(src, 'R')]
 
 
-UNITS = {'C03': build_C03}
+UNITS = {'C03': build_C03, 'C12': lambda src, tier: [unit_C12(src, 'R')]}
 KANI = {}
 META = {
     'C03': dict(min_obligations=350, trust=['A1', 'A2', 'A6'],
